@@ -297,6 +297,8 @@ impl<'a> crate::fdl::FdlApplication for DpMaster<'a> {
 
         let mut peripheral_event = None;
         loop {
+            #[cfg(feature = "verif-hooks")]
+            crate::verif::burn("DpMaster::transmit_telegram");
             let index = match self.state.cycle_state {
                 CycleState::DataExchange(i) => i,
                 CycleState::CycleCompleted => {
@@ -415,5 +417,18 @@ impl<'a> crate::fdl::FdlApplication for DpMaster<'a> {
         // handling is actually done as part of the transmit_telegram() code.
         //
         // log::warn!("Timeout while waiting for response from #{}!", addr);
+    }
+}
+
+#[cfg(feature = "verif-hooks")]
+impl DpMaster<'_> {
+    /// Verification hook: snapshot of the private cycle state.
+    pub fn verif_probe(&self) -> crate::verif::DpMasterProbe {
+        crate::verif::DpMasterProbe {
+            cycle_index: match self.state.cycle_state {
+                CycleState::DataExchange(i) => Some(i),
+                CycleState::CycleCompleted => None,
+            },
+        }
     }
 }
